@@ -257,6 +257,7 @@ VARIANTS = [
     V( 'fowidth-decoder-large-keyword', DEVICE, "parameters = defaults.Connection( **dict( data[pathsrc], large=self.lrg ))", "parameters		= defaults.Connection( large=self.lrg, **data[pathsrc] )", silent=[ 'K-FOWIDTH' ] ),
     V( 'bundle-member-dispatch-unprotected', DEVICE, "try:\n target.request( r, addr=addr )\n except Exception as exc:", "target.request( r, addr=addr )\n                    try:\n                        pass\n                    except Exception as exc:", fires=[ 'P-EACH' ], why='defect AM' ),
     V( 'bundle-member-parse-failure-escapes', DEVICE, "log.normal( \"%s Multiple Service Packet request %d failed to parse: %s\", target, oi, exc )", "raise", fires=[ 'P-CLOSURE' ], why='defect AM' ),
+    V( 'routetext-try-asserts-list-only', DEVICE, "assert isinstance( route_path, (type(None),bool,int,list) ), \\\n \"route_path invalid; must resolve to null/0/false or list, not: %r\" % ( route_path, )", "assert isinstance( route_path, list ), \\\n                \"route_path invalid; must resolve to list, not: %r\" % ( route_path, )", fires=[ 'T-ROUTETEXT' ], why='defect AN' ),
     V( 'pathstop-equivalent', DEVICE, "or not attribute #   or no Attribute desired (must return None)", "or attribute in ( False, None, 0 ) or not attribute", silent=[ 'D-PATHSTOP' ] ),
     V( 'keypass-normalised', MAIN, "def __setitem__( self, key, value ):\n super( Attribute_print, self ).__setitem__( key, value )", "def __setitem__( self, key, value ):\n            if isinstance( key, slice ):\n                key	= slice( *key.indices( len( self )))\n            super( Attribute_print, self ).__setitem__( key, value )", fires=[ 'K-KEYPASS' ] ),
     V( 'route-checks-outside-try', UCMM, "rsp,ela = client.await_response( conn, timeout=timeout )\n assert rsp, \\", "rsp,ela	= client.await_response( conn, timeout=timeout )\n                                assert True, \\", fires=[ 'P-ROUTE' ] ),
